@@ -74,7 +74,9 @@ func wrapGraphNodeError(nodeKey string, err error) error {
 		}
 	}
 	ie.nodePath.path = append([]string{nodeKey}, ie.nodePath.path...)
-	return ie
+	// return err, not ie: err may wrap ie (fmt.Errorf with %w, a typed error with Unwrap),
+	// and what wraps it belongs to the node's error as well.
+	return err
 }
 
 func newStreamWrapperError(streamWrapperType defaultImplAction, err error) error {
@@ -99,7 +101,7 @@ func wrapStreamWrapperError(streamWrapperType defaultImplAction, err error) erro
 		}
 	}
 	ie.streamWrapperPath = append([]defaultImplAction{streamWrapperType}, ie.streamWrapperPath...)
-	return ie
+	return err // see wrapGraphNodeError
 }
 
 type internalErrorType string
